@@ -22,7 +22,9 @@ META = {
                   "blocks = parameter blocks; certified checkers C05_checkb / C05_grad_checkb / update_okb. The model is tied to "
                   "/repo by an exhaustive comparison inside coqc (order 0..4, numel<=64 (quick 32), thr in 1..9 and 1024, merge on/off: "
                   "merged dims, block count, shape/storage offset/strides of every parameter and gradient block, storage identity, and "
-                  "the effect of update_params) plus random large shapes for the two utilities. "
+                  "the effect of update_params), a gradient-layout stream (gradients whose memory layout differs from the parameter's - permuted storage, "
+                  "channels_last, gapped as_strided - carrying their logical indices as values: every gradient block must list exactly view_offsets of the "
+                  "model's block; certified values-based checker C05_grad_values_checkb) plus random large shapes for the two utilities. "
                   "Second clause: `C05_blocked_eq_presplit` - in the structural model of step() (Masks.v, generic in the per-block "
                   "computation, instantiated with Optimizer.block_step in OptimizerMasks.v) two layouts whose histories present the same "
                   "per-block gradients give the same block values, states and step counter over any history; on the implementation the "
@@ -91,6 +93,72 @@ def dist_case(args):
                 "ok_p": bool(ok_p), "ok_g": bool(ok_g), "bases": bases, "storage": storage, "ok_u": ok_u}
     except Exception as ex:  # noqa
         return {"exc": type(ex).__name__ + ": " + str(ex)[:200]}
+
+
+def grad_layouts(shape):
+    """Non-default memory layouts for a gradient of this logical shape: permuted storage (reversed dims, last two
+    swapped, channels_last for order 4) and a gapped as_strided layout (doubled strides, storage offset 3)."""
+    k = len(shape)
+    out = [("perm", tuple(reversed(range(k))))]
+    if k >= 3:
+        out.append(("perm", tuple(range(k - 2)) + (k - 1, k - 2)))
+        out.append(("perm", (1, 0) + tuple(range(2, k))))
+    if k == 4:
+        out.append(("perm", (0, 2, 3, 1)))       # memory order N,H,W,C = torch.channels_last
+    out.append(("gap", 3))
+    return out
+
+
+def make_grad(shape, layout):
+    """A tensor of this shape whose element at logical row-major position i has the value i, stored with `layout`."""
+    import torch
+    n = math.prod(shape)
+    index = torch.arange(n, dtype=torch.float32).reshape(shape)
+    if layout[0] == "perm":
+        perm = list(layout[1])
+        inv = [perm.index(i) for i in range(len(perm))]
+        G = index.permute(perm).contiguous().permute(inv)
+    else:
+        cs = [math.prod(shape[i + 1:]) for i in range(len(shape))]
+        base = torch.full((2 * n + 8,), -1.0)
+        G = base.as_strided(shape, [2 * c for c in cs], layout[1])
+        G.copy_(index)
+    assert tuple(G.shape) == tuple(shape) and bool(torch.equal(G, index))
+    return G
+
+
+def gradlayout_case(args):
+    """Contiguous parameter, gradient with a different memory layout carrying its logical indices as values."""
+    import torch
+    from distributed_shampoo.shampoo_types import MAX_PRECONDITIONER_DIM, PARAMS, USE_MERGE_DIMS
+    from distributed_shampoo.utils.shampoo_distributor import Distributor
+
+    shape, thr, merge, layout = args
+    try:
+        p = torch.zeros(shape)
+        G = make_grad(shape, layout)
+        p.grad = G
+        d = Distributor({PARAMS: [p], MAX_PRECONDITIONER_DIM: thr, USE_MERGE_DIMS: merge})
+        merged = list(d._global_merged_dims_list[0])
+        pb = [_geo(b, 0) for b in d.local_blocked_params]
+        try:
+            gb = d.merge_and_block_gradients()
+        except RuntimeError as ex:       # grad.view(merged_dims) on a layout that cannot be viewed
+            return {"rejected": str(ex)[:120], "merged": merged, "pb": pb, "gstride": list(G.stride())}
+        ok_g = all(b.untyped_storage().data_ptr() == G.untyped_storage().data_ptr() for b in gb)
+        return {"merged": merged, "pb": pb, "ok_g": bool(ok_g), "gstride": list(G.stride()),
+                "g": [(list(b.shape), [int(x) for x in b.reshape(-1).tolist()]) for b in gb]}
+    except Exception as ex:  # noqa
+        return {"exc": type(ex).__name__ + ": " + str(ex)[:200]}
+
+
+def _ref_offsets(geo):
+    """Row-major enumeration of the offsets a (offset, sizes, strides) view addresses - used for message texts only."""
+    off, sizes, strides = geo
+    out = [off]
+    for n, st in zip(sizes, strides):
+        out = [o + i * st for o in out for i in range(n)]
+    return out
 
 
 def merge_case(args):
@@ -200,6 +268,10 @@ def views(vs) -> str:
     return "[" + "; ".join(f"mkv {z(o)} {zs(sh)} {zs(st)}" for o, sh, st in vs) + "]"
 
 
+def gvals(g) -> str:
+    return "[" + "; ".join(f"({zs(sh)}, {zs(v)})" for sh, v in g) + "]"
+
+
 HEADER = """From Coq Require Import ZArith List String.
 From Shampoo Require Import Show SplitRecovery Blocking BlockingProofs BlockingChecker.
 Import ListNotations. Open Scope Z_scope.
@@ -275,9 +347,16 @@ def run(ck: Check) -> None:
             eps = rng.choice((1e-12, 1e-8, 1e-6))
             iwork.append((ci, sh, b, mg, eps, rng.choice((5, 6)), rng.randrange(10 ** 6)))
 
+    # ---- (a3) gradient-layout stream: gradients whose memory layout differs from the parameter's ---
+    gmaxn = 36 if thorough else 24
+    gthrs = (1, 2, 3, 4, 5, 7, 1024) if thorough else (2, 3, 5, 1024)
+    gwork = [(sh, thr, mg, lay) for sh in shapes_upto(gmaxn, 4) if 2 <= len(sh) <= 4
+             for thr in gthrs for mg in (True, False) for lay in grad_layouts(sh)]
+
     with mp.get_context("fork").Pool(16) as pool:
         ires_async = pool.map_async(inv_case, iwork, chunksize=4)
         dres = pool.map(dist_case, dwork, chunksize=64)
+        gres = pool.map(gradlayout_case, gwork, chunksize=64)
         mres = pool.map(merge_case, mwork, chunksize=256)
         sres = pool.map(split_case, swork, chunksize=16)
         ires = ires_async.get()
@@ -299,7 +378,16 @@ def run(ck: Check) -> None:
         ditems.append(f"andb {coq_bool(r['ok_u'])} (agree_update {sh_thr_mg(w)} {zs(r['bases'])} {zs(r['storage'])})")
     mitems = ["false" if "exc" in r else f"agree_merge {zs(sh)} {thr} {zs(r['out'])}" for (sh, thr), r in zip(mwork, mres)]
     sitems = ["false" if "exc" in r else f"andb {coq_bool(r['ok'])} (agree_split {zs(sh)} {b} {views(r['views'])})" for (sh, b), r in zip(swork, sres)]
+    gitems = []
+    for w, r in zip(gwork, gres):
+        if "exc" in r:
+            gitems.append("false")
+        elif "rejected" in r:       # acceptable only where merging changes the shape (model decides)
+            gitems.append(f"view_may_fail {sh_thr_mg(w[:3])}")
+        else:
+            gitems.append(f"andb {coq_bool(r['ok_g'])} (agree_grad_values {sh_thr_mg(w[:3])} {zs(r['merged'])} {gvals(r['g'])})")
     dflat = eval_items(ck, "c05_d", ditems, 400)
+    gflat = eval_items(ck, "c05_g", gitems, 600)
     mflat = eval_items(ck, "c05_m", mitems, 1500)
     sflat = eval_items(ck, "c05_s", sitems, 100)
 
@@ -307,6 +395,7 @@ def run(ck: Check) -> None:
     bad_u = [i for i in range(len(dwork)) if dflat[2 * i] == "T" and dflat[2 * i + 1] != "T"]
     bad_m = [i for i in range(len(mwork)) if mflat[i] != "T"]
     bad_s = [i for i in range(len(swork)) if sflat[i] != "T"]
+    bad_g = [i for i in range(len(gwork)) if gflat[i] != "T"]
 
     transfer = ["C05_blocks_tile", "C05_block_dims_le", "C05_blocks_row_major", "C05_num_blocks_formula",
                 "C05_grad_blocks_same_index_sets", "C05_merge_small_dims_spec", "C05_multi_dim_split_is_boxes"]
@@ -378,6 +467,36 @@ def run(ck: Check) -> None:
                        "shape": list(first[1][0]), "thr": first[1][1], "b": first[1][1], "merge": first[1][2] if len(first[1]) > 2 else None, "impl": first[2],
                        "theorems_not_transferring": transfer}, no_failing_input=True)
 
+    # ---- gradient-layout stream: values-based certified checker on the implementation's own output ----
+    if bad_g:
+        gidx = sorted(bad_g, key=lambda i: (math.prod(gwork[i][0]), len(gwork[i][0]), i))[:3000]
+        gc = []
+        for i in gidx:
+            r = gres[i]
+            gc.append("false" if ("exc" in r or "rejected" in r) else
+                      f"andb {coq_bool(r['ok_g'])} (C05_grad_values_checkb {views(r['pb'])} {gvals(r['g'])})")
+        gcflat = eval_items(ck, "c05_gchk", gc, 300)
+        gfail = [i for i, bch in zip(gidx, gcflat) if bch != "T"]
+        if gfail:
+            i = gfail[0]
+            w, r = gwork[i], gres[i]
+            if "exc" in r or "rejected" in r:
+                what = f"raised {r.get('exc', r.get('rejected'))} although merged dims == shape (the layout is viewable)"
+            else:
+                k = next((k for k, (pbk, gk) in enumerate(zip(r["pb"], r["g"])) if sorted(gk[1]) != sorted(_ref_offsets(pbk)) or gk[0] != pbk[1]), 0)
+                what = (f"gradient block {k} has shape {r['g'][k][0]} and carries logical indices {r['g'][k][1][:12]} but parameter block {k} "
+                        f"(shape {r['pb'][k][1]}) covers {_ref_offsets(r['pb'][k])[:12]}") if k < len(r["g"]) else "block count differs"
+            ck.report(None, f"Distributor violates C05 (gradient blocks must cover the index sets of the parameter blocks) on shape={list(w[0])} "
+                            f"max_preconditioner_dim={w[1]} use_merge_dims={w[2]} gradient layout={w[3]} (grad strides {r.get('gstride')}): {what}",
+                      {"kind": "gradlayout", "shape": list(w[0]), "thr": w[1], "merge": w[2], "layout": [w[3][0], list(w[3][1]) if w[3][0] == "perm" else w[3][1]],
+                       "impl": r, "n_failing": len(gfail), "predicate": "C05_grad_values_checkb (observed logical indices of gradient block k = view_offsets of parameter block k) and storage identity"})
+        else:
+            w, r = gwork[bad_g[0]], gres[bad_g[0]]
+            ck.report(None, f"model/implementation correspondence broken on the gradient-layout stream ({len(bad_g)} cases; first: shape={list(w[0])} thr={w[1]} merge={w[2]} layout={w[3]}) "
+                            "but the gradient blocks still cover the parameter blocks' index sets",
+                      {"kind": "gradlayout", "shape": list(w[0]), "thr": w[1], "merge": w[2], "layout": [w[3][0], list(w[3][1]) if w[3][0] == "perm" else w[3][1]], "impl": r,
+                       "broken": "Blocking.agree_grad_values", "theorems_not_transferring": ["C05_grad_blocks_same_index_sets"]}, no_failing_input=True)
+
     # ---- (b) verdict: implementation vs implementation ---------------------------------------
     inv_bad, exact1, exact2, max1, max2, inv_exc = [], 0, 0, 0.0, 0.0, []
     cfg_hist = {}
@@ -410,7 +529,7 @@ def run(ck: Check) -> None:
     cand = [i for i, (w, r) in enumerate(zip(dwork, dres)) if "exc" not in r and 2 <= w[1] <= 9 and 2 <= r["nb"] <= 6 and len(w[0]) >= 2]
     pick = [cand[len(cand) // 5], cand[len(cand) // 2], cand[-len(cand) // 7]] if len(cand) >= 3 else list(range(min(3, len(dwork))))
     ck.coverage.update({
-        "evaluations": len(ditems) + len(mitems) + len(sitems) + len(iwork),
+        "evaluations": len(ditems) + len(mitems) + len(sitems) + len(gitems) + len(iwork),
         "distinct_nontrivial": len(nontriv),
         "rule": f"every shape of order 0..4 with numel<={maxn} (size-1 dims included) x max_preconditioner_dim in {THRS} x use_merge_dims on/off through a real "
                 "Distributor (2 booleans per case: blocks+gradient blocks+merged dims+count+storage identity; effect of update_params), plus random large shapes "
@@ -421,7 +540,14 @@ def run(ck: Check) -> None:
         "distribution": {"distributor_cases": len(dwork), "orders": ord_hist, "blocks_per_param": nb_hist,
                          "merge_small_dims_random": len(mwork), "multi_dim_split_random": len(swork),
                          "split_blocks_max": max((len(r.get("views", [])) for r in sres), default=0)},
-        "disagreements": {"distributor": len(bad_d), "update": len(bad_u), "merge_small_dims": len(bad_m), "multi_dim_split": len(bad_s)},
+        "disagreements": {"distributor": len(bad_d), "update": len(bad_u), "merge_small_dims": len(bad_m), "multi_dim_split": len(bad_s), "gradient_layout": len(bad_g)},
+        "gradient_layout_stream": {
+            "rule": f"every shape of order 2..4 with numel<={gmaxn} x max_preconditioner_dim in {list(gthrs)} x merge on/off x layouts (storage with reversed dims, last two dims swapped, "
+                    "first two swapped, channels_last for order 4, gapped as_strided with doubled strides and storage offset 3); the gradient's values are its logical row-major indices; "
+                    "each gradient block (shape, values in its own row-major order) is compared inside coqc with view_offsets of the model's block; a RuntimeError from grad.view is accepted only where the model's merged dims differ from the shape",
+            "cases": len(gwork), "compared_by_value": sum(1 for r in gres if "g" in r), "rejected_by_view": sum(1 for r in gres if "rejected" in r),
+            "layouts": {str(k): sum(1 for w in gwork if (w[3][0], tuple(w[3][1]) if w[3][0] == "perm" else w[3][1]) == k) for k in sorted({(w[3][0], tuple(w[3][1]) if w[3][0] == "perm" else w[3][1]) for w in gwork}, key=str)},
+            "truly_non_default_strides": sum(1 for w, r in zip(gwork, gres) if r.get("gstride") is not None and r["gstride"] != [math.prod(w[0][i + 1:]) for i in range(len(w[0]))])},
         "invariance_impl_vs_impl": {
             "label": "implementation-vs-implementation test (NOT model-vs-implementation, NOT a theorem): real DistributedShampoo, float64, blocked tensor vs its blocks as separate parameters",
             "runs": len(iwork), "configs": cfg_hist, "steps": "5-6", "tolerance": INV_TOL,
@@ -447,6 +573,11 @@ def replay(obj) -> bool:
     elif kind == "split":
         r = split_case((tuple(obj["shape"]), obj["b"]))
         print("implementation returns", str(r)[:2000])
+    elif kind == "gradlayout":
+        lay = obj["layout"]
+        r = gradlayout_case((tuple(obj["shape"]), obj["thr"], bool(obj["merge"]), (lay[0], tuple(lay[1]) if lay[0] == "perm" else lay[1])))
+        print("implementation returns", r)
+        print("recorded", obj.get("impl"))
     elif kind == "invariance":
         a = obj["args"]
         print("implementation returns", inv_case((a[0], tuple(a[1]), a[2], a[3], a[4], a[5], a[6])), "recorded", obj.get("result"))
